@@ -121,7 +121,8 @@ class RedisCache(TileCacheBase):
         pipe.ttl(self._key(tile))
         pipe.memory_usage(self._key(tile))
         pipe_res = pipe.execute()
-        tile.timestamp = time.mktime(datetime.datetime.now().timetuple()) - self.ttl - int(pipe_res[0])
+        # the key was written ttl seconds before it expires, that is in pipe_res[0] seconds
+        tile.timestamp = time.mktime(datetime.datetime.now().timetuple()) - self.ttl + int(pipe_res[0])
         tile.size = pipe_res[1]
 
     def load_tile(self, tile, with_metadata=False, dimensions=None):
